@@ -3,14 +3,15 @@ CONSTANTS
   Tm = 15
   Ta = 8
   DSecs = {2, 3}
-  T0s <- T0Quick
+  T0s <- T0All
   Ks <- KsDef
   StartNrs = {0, 1}
   Shorts = {0, 1}
   NSeg = 5
-  Arith = "code"
+  Arith = "proposed"
 INVARIANT InvTune
 INVARIANT InvKeep
 INVARIANT InvGrid
 INVARIANT InvTime
 INVARIANT InvTimeExactShift
+INVARIANT InvManifest
